@@ -547,7 +547,9 @@ func (mn mon) Run(sh drv.Shard, c *drv.Ctx) {
 	case "spell":
 		// alternative spellings of one pattern must behave like the plain one
 		sp := func(p string) []string {
-			return []string{p, p + "/", "/" + p, strings.ReplaceAll(p, "/", "//"), p + "//", "/" + strings.ReplaceAll(p, "/", "///") + "/"}
+			// (the last two: without the leading slash - a pattern is rooted like a request path is)
+			return []string{p, p + "/", "/" + p, strings.ReplaceAll(p, "/", "//"), p + "//", "/" + strings.ReplaceAll(p, "/", "///") + "/",
+				strings.TrimPrefix(p, "/"), strings.TrimPrefix(p, "/") + "/"}
 		}
 		for _, p := range patterns() {
 			for _, q := range sp(p) {
@@ -626,6 +628,11 @@ func randCase(r *rand.Rand) Case {
 		}
 		if k == 0 || r.Intn(8) == 0 {
 			sb.WriteByte('/')
+		}
+		if r.Intn(40) == 0 {
+			sb2 := strings.TrimLeft(sb.String(), "/") // a pattern written without its leading slash
+			sb.Reset()
+			sb.WriteString(sb2)
 		}
 		m := methods10[r.Intn(len(methods10))]
 		if r.Intn(60) == 0 {
